@@ -76,6 +76,7 @@ class PythonModuleInstance(ModuleInstance):
         imports["wasm_rt_table_copy"] = self.table_copy
         imports["wasm_rt_table_fill"] = self.table_fill
         imports["wasm_rt_elem_drop"] = self.elem_drop
+        imports["wasm_rt_table_oob"] = self.table_oob
 
         imports["wasm_rt_memory_grow"] = self.memory_grow
         imports["wasm_rt_memory_size"] = self.memory_size
